@@ -295,7 +295,12 @@ func ruleParseBeforeEval(c *Ctx, r *R) {
 								}
 								bad := false
 								for _, ev := range evals {
-									if reaches(errSide, ev.Block(), map[*ssa.BasicBlock]bool{iff.Block(): true}) || !iff.Block().Dominates(ev.Block()) {
+									// the evaluation must not be reachable from the error side, nor from the parse call around
+									// the test (paths that never parse - another arm of a switch over the source - are not at issue)
+									if reaches(errSide, ev.Block(), map[*ssa.BasicBlock]bool{iff.Block(): true}) {
+										bad = true
+									}
+									if call.Block() != iff.Block() && reaches(call.Block(), ev.Block(), map[*ssa.BasicBlock]bool{iff.Block(): true}) {
 										bad = true
 									}
 								}
